@@ -486,7 +486,24 @@ fn gen_animator(rng: &mut Rng) -> Animator {
         // (the first arm keeps at least one keyframe so that every block stays type-inferable
         // even if a defect drops keyframe-less arms)
         let first_arm = arms.is_empty();
-        let tls: Vec<Tl> = (0..n_tls).map(|i| gen_tl(rng, true, first_arm && i == 0)).collect();
+        let mut tls: Vec<Tl> = (0..n_tls).map(|i| gen_tl(rng, true, first_arm && i == 0)).collect();
+        // A component of a bracketed list has to be written with at least one token: there is no
+        // way to spell "a timeline with every default", and `[t1, ]` is `t1` followed by a
+        // trailing comma, not two components.
+        for t in tls.iter_mut() {
+            if bracketed && render_tl_macro(t).trim().is_empty() {
+                t.duration = Some((
+                    TimeLit {
+                        text: "1s".into(),
+                        seconds: 1.0,
+                    },
+                    false,
+                ));
+                if !t.arg_order.contains(&0) {
+                    t.arg_order.insert(0, 0);
+                }
+            }
+        }
         if merged {
             features.push("merged-arm");
         } else if bracketed {
